@@ -1118,6 +1118,8 @@ impl TransactionBuilder {
     /// The ledger applies the maximum value size to every output of the body, the collateral return included
     fn check_max_value_size(&self, amount: &Value) -> Result<(), JsError> {
         let value_size = amount.to_bytes().len();
+        #[cfg(csl_verif)]
+        crate::verif_oracle::log(b'S', Some((value_size > self.config.max_value_size as usize) as u64));
         if value_size > self.config.max_value_size as usize {
             return Err(JsError::from_str(&format!(
                 "Maximum value size of {} exceeded. Found: {}",
